@@ -78,6 +78,70 @@ fn expect(queued: &[u64], nsenders: usize) -> String {
     }
 }
 
+/// A receiver that polls — `try_recv` or `try_recv_timeout(d)` with `d` from 0 to a few milliseconds — while another thread is
+/// in the middle of sending multi-packet messages: a poll may answer `empty` as often as it likes, but no message may be
+/// lost, altered or reordered, and once the sender is gone the receiver must reach `disconnected` after the last message.
+fn poll_during_big_sends_case(id: String, how: usize, nmsgs: u64, len: usize) -> Case {
+    let mut case = Case::new(id);
+    let (tx, rx): (IpcSender<Msg>, IpcReceiver<Msg>) = ipc::channel().unwrap();
+    let h = std::thread::spawn(move || {
+        let mut ok = 0;
+        for t in 1..=nmsgs {
+            let body: Vec<u8> = (0..len).map(|i| (t as u8).wrapping_mul(17).wrapping_add((i % 253) as u8)).collect();
+            if tx.send((t, body)).is_ok() {
+                ok += 1;
+            }
+        }
+        ok
+    });
+    let d = [Duration::ZERO, Duration::ZERO, Duration::from_micros(300), Duration::from_millis(2)][how];
+    let t0 = Instant::now();
+    let mut got: Vec<u64> = Vec::new();
+    let mut empties = 0u64;
+    let mut outcome = "timeout";
+    while t0.elapsed() < Duration::from_secs(20) {
+        let r = if how == 0 { rx.try_recv() } else { rx.try_recv_timeout(d) };
+        match r {
+            Ok((t, body)) => {
+                let want: Vec<u8> = (0..len).map(|i| (t as u8).wrapping_mul(17).wrapping_add((i % 253) as u8)).collect();
+                if body != want {
+                    case.fail(format!("message {} ({} bytes) arrived altered ({} bytes) while the receiver was polling", t, len, body.len()));
+                }
+                got.push(t);
+            },
+            Err(TryRecvError::Empty) => empties += 1,
+            Err(TryRecvError::IpcError(IpcError::Disconnected)) => {
+                outcome = "disc";
+                break;
+            },
+            Err(e) => {
+                case.fail(format!("polling receive failed: {:?}", e));
+                outcome = "error";
+                break;
+            },
+        }
+    }
+    let sent_ok = h.join().unwrap_or(0);
+    let want: Vec<u64> = (1..=nmsgs).collect();
+    if sent_ok != nmsgs && case.oracle.is_none() {
+        case.fail(format!("{} of {} sends failed although the receiver was alive and polling", nmsgs - sent_ok, nmsgs));
+    }
+    if got != want && case.oracle.is_none() {
+        case.fail(format!(
+            "a polling receiver ({}) got messages {:?} of {:?} ({} bytes each, {} polls answered empty, ended with {})",
+            ["try_recv", "try_recv_timeout(0)", "try_recv_timeout(300us)", "try_recv_timeout(2ms)"][how], got, want, len, empties, outcome
+        ));
+    }
+    if outcome != "disc" && case.oracle.is_none() {
+        case.fail(format!("the receiver did not reach 'disconnected' within 20 s after the sender finished ({})", outcome));
+    }
+    case.pair("noop".into(), "ok".into());
+    case.nontrivial = true;
+    case.key = format!("pollbig:{}:{}:{}", how, nmsgs, len);
+    case.tags.push("poll_during_multi_packet_send".into());
+    case
+}
+
 pub fn run(args: &[String]) {
     let thorough = arg(args, "--tier").as_deref() == Some("thorough");
     let seed = arg_u64(args, "--seed", 1);
@@ -96,6 +160,17 @@ pub fn run(args: &[String]) {
     #[cfg(not(feature = "force-inprocess"))]
     let _g = crate::interpose::install(crate::interpose::Ctx::new(0));
     let durations: [u64; 8] = [0, 1, 300, 999, 1000, 1500, 3000, 12_000]; // microseconds
+    if seed % 2 == 1 {
+        // once per check (the scenario is started with two seeds): polling receivers against multi-packet sends in progress
+        let lens: &[usize] = if thorough { &[300_000, 1 << 20, 4 << 20] } else { &[1 << 20] };
+        let mut k = 0;
+        for &len in lens {
+            for how in 0..4 {
+                poll_during_big_sends_case(format!("timed-{}-pollbig-{}", build, k), how, 3, len).emit();
+                k += 1;
+            }
+        }
+    }
     for i in 0..n {
         let mut case = Case::new(format!("timed-{}-{}", build, i));
         #[cfg(not(feature = "force-inprocess"))]
